@@ -20,7 +20,7 @@ type C12Case struct {
 	U        Universe    `json:"u"`
 	Tree     *m.Node     `json:"tree"`
 	Costs    []CostEntry `json:"costs,omitempty"`
-	Events   int         `json:"events"`   // 1 ReportEvent, 2 Debug
+	Events   int         `json:"events"`   // 1 ReportEvent, 2 Debug, 3 both
 	Consumer int         `json:"consumer"` // 0 synchronous copying reader, 1 buffered channel drained after the call, 2 reader that scribbles over every Stack it receives
 	Try      bool        `json:"try,omitempty"`
 	Avail    []string    `json:"avail,omitempty"`
@@ -71,7 +71,7 @@ func genC12(t *rapid.T) C12Case {
 		}
 	}
 	c := C12Case{U: *u, Tree: tree, Costs: genCosts(t, tree, finiteCosts), CtxKind: pickW(t, "ctxkind", 4, 1, 2, 1),
-		Events: rapid.IntRange(1, 2).Draw(t, "events"), Consumer: rapid.IntRange(0, 2).Draw(t, "consumer"),
+		Events: 1 + pickW(t, "events", 3, 3, 1), Consumer: rapid.IntRange(0, 2).Draw(t, "consumer"),
 		Try: rapid.IntRange(0, 2).Draw(t, "try") == 0, Evals: rapid.IntRange(1, 3).Draw(t, "evals"), Src: m.Render(tree)}
 	if c.Try {
 		var unbound []string
